@@ -166,18 +166,24 @@ inline void run_seq(const SeqProg &p) {
 
 // ================================================================ (b) threads
 struct Reader_ { uint8_t flavour; uint8_t yields; uint8_t mode; };      // flavour 0 coroutine, 1 blocking
-struct MtProg { uint8_t count; uint8_t batch_at; uint8_t pub_yields; uint8_t finish; std::vector<Reader_> rd; uint8_t second_pub; };   // finish 0 close, 1 destroy; second_pub: values published concurrently by a 2nd thread
+struct MtProg { uint8_t count; uint8_t batch_at; uint8_t pub_yields; uint8_t finish; std::vector<Reader_> rd; uint8_t second_pub; uint8_t late_sub; uint8_t kick0; };   // late_sub / kick0: 0 no, else yields before a late subscriber subscribes / before subscriber 0 is kicked   // finish 0 close, 1 destroy; second_pub: values published concurrently by a 2nd thread
 inline MtProg decode_mt(hz::Reader &r) {
     MtProg p; p.count = (uint8_t)(1 + r.mod(5)); p.batch_at = (uint8_t)r.mod(6); p.pub_yields = (uint8_t)r.mod(3); p.finish = (uint8_t)r.mod(2);
     unsigned n = 1 + r.mod(3);
     for (unsigned i = 0; i < n; i++) { Reader_ x; x.flavour = (uint8_t)r.mod(2); x.yields = (uint8_t)r.mod(3); x.mode = (uint8_t)(r.mod(4) == 0 ? 1 + r.mod(2) : 0); p.rd.push_back(x); }
     p.second_pub = (uint8_t)(r.mod(3) == 0 ? 1 + r.mod(3) : 0);
+    p.late_sub = (uint8_t)(r.mod(3) == 0 ? 1 + r.mod(4) : 0);
+    p.kick0 = (uint8_t)(r.mod(4) == 0 ? 1 + r.mod(4) : 0);
+    if (p.finish == 1 || p.second_pub) { p.late_sub = 0; p.kick0 = 0; }      // both need the publisher object alive and value == position
     return p;
 }
 inline std::string describe_mt(const MtProg &p) {
     hz::Desc d; d << "publisher thread publishes " << (unsigned)p.count << " values (batch of 2 at #" << (unsigned)p.batch_at << ")";
     if (p.second_pub) d << ", a second thread publishes " << (unsigned)p.second_pub << " values concurrently";
-    d << ", then " << (p.finish ? "the publisher is destroyed" : "close()") << "; subscriber threads:";
+    d << ", then " << (p.finish ? "the publisher is destroyed" : "close()");
+    if (p.late_sub) d << "; a late all_values subscriber subscribes concurrently (after " << (unsigned)p.late_sub << " yields)";
+    if (p.kick0) d << "; subscriber 0 is kicked concurrently (after " << (unsigned)p.kick0 << " yields)";
+    d << "; subscriber threads:";
     for (auto &x : p.rd) d << " [" << (x.flavour ? "blocking next()" : "co_await next()") << ", " << modes[x.mode] << ", yield*" << (unsigned)x.yields << "]";
     return d.s;
 }
@@ -229,11 +235,24 @@ struct MtRun {
             hz::upoints(prog.pub_yields);
             if (!two) { if (prog.finish == 0) pub->close(); else pub.reset(); }
         });
+        // a subscriber that registers while values are being published: its stream starts somewhere, then is gap-free
+        std::vector<int> late_got; std::thread late;
+        if (prog.late_sub) late = std::thread([this, &prog, &late_got] {
+            hz::upoints(prog.late_sub);
+            Sub s(*pub, ST::all_values);
+            for (;;) { bool more = (bool)s.next(); if (!more) break; late_got.push_back(s.value()); }
+        });
+        if (prog.kick0) { hz::upoints(prog.kick0); pub->kick(subs[0].get()); }
         std::thread pt2;
         if (two) pt2 = std::thread([this, &prog] { for (unsigned k = 0; k < prog.second_pub; k++) { hz::upoint(); pub->publish(1000 + (int)k + 1); } });
         pt.join();
         if (two) { pt2.join(); if (prog.finish == 0) pub->close(); else pub.reset(); }
         for (auto &t : th) t.join();
+        if (late.joinable()) {
+            late.join();
+            for (size_t k = 1; k < late_got.size(); k++) HZ_CHECK(late_got[k] == late_got[k - 1] + 1, "late subscriber: value %d follows %d (gap, duplicate or reorder)", late_got[k], late_got[k - 1]);
+            if (!late_got.empty()) HZ_CHECK(late_got.back() == (int)total, "late subscriber's stream ended at %d although %ld values were published before close() and it was never kicked", late_got.back(), total);
+        }
         if (two) {
             for (size_t i = 0; i < got.size(); i++) {
                 auto &g = got[i];
@@ -256,7 +275,8 @@ struct MtRun {
             if (prog.rd[i].mode == 0) {
                 for (size_t k = 0; k < g.size(); k++)
                     HZ_CHECK(g[k] == (int)k + 1, "all_values subscriber %zu: value #%zu is %d, expected %zu (gap, duplicate or reorder)", i, k, g[k], k + 1);
-                HZ_CHECK((long)g.size() == total, "all_values subscriber %zu saw the end of the stream after %zu of %ld values although the queue is unlimited and it was never kicked", i, g.size(), total);
+                if (!(prog.kick0 && i == 0))
+                    HZ_CHECK((long)g.size() == total, "all_values subscriber %zu saw the end of the stream after %zu of %ld values although the queue is unlimited and it was never kicked", i, g.size(), total);
             } else {
                 for (size_t k = 1; k < g.size(); k++) HZ_CHECK(g[k] > g[k - 1], "%s subscriber %zu moved backwards or repeated: %d after %d", modes[prog.rd[i].mode], i, g[k], g[k - 1]);
                 for (int v : g) HZ_CHECK(v >= 1 && v <= total, "subscriber %zu received %d, %ld values were published", i, v, total);
